@@ -40,7 +40,7 @@ def generate(tier, seed):
         elif style == 'shuffled':
             rng.shuffle(names)
         cases.append(dict(kind=kind, wav=wav, order=order, aps=aps, val=val, names=names, unit=rng.choice(UNITS), with_unc=rng.random() < 0.7,
-                          dist_kpc=rng.choice([2.5, 0.125, 7.75, 40.0]), stored=rng.choice(['incr', 'decr']), unit_wav=rng.choice(['micron', 'micron', 'cm', 'nm', 'Angstrom']), unit_freq=rng.choice(['Hz', 'Hz', 'GHz', 'THz']), memmap=rng.random() < 0.5, conv_wav=rng.choice([None, rng.dyadic(0.3, 50, 8)])))
+                          columns=rng.choice(['standard', 'standard', 'reordered']), dist_kpc=rng.choice([2.5, 0.125, 7.75, 40.0]), stored=rng.choice(['incr', 'decr']), unit_wav=rng.choice(['micron', 'micron', 'cm', 'nm', 'Angstrom']), unit_freq=rng.choice(['Hz', 'Hz', 'GHz', 'THz']), memmap=rng.random() < 0.5, conv_wav=rng.choice([None, rng.dyadic(0.3, 50, 8)])))
     return cases
 
 
@@ -80,6 +80,9 @@ def impl(case):
             if case.get('stored') == 'decr':      # SED.write always stores increasing frequency; files stored the other way round exist too
                 import pkgcase
                 pkgcase.store_decreasing(p)
+            if case.get('columns') == 'reordered':      # "the order of the columns is not important" (package format page)
+                import pkgcase
+                pkgcase.reorder_columns(p)
             # the units wavelengths / frequencies are asked in (returned values are converted back and snapped to the stored wavelength within 1e-12)
             uw, uf = u.Unit(case.get('unit_wav', 'micron')), u.Unit(case.get('unit_freq', 'Hz'))
 
